@@ -367,9 +367,15 @@ fn run_case(c: &Case) -> Outcome {
         let mut m2 = Module::parse(&bytes, true).expect("harness: base parses");
         apply(&mut m2, &c.items);
         let out = m2.encode();
-        (exp, recs, out)
+        // replay 3: report first, then encode, on ONE module: asking for the report must not change
+        // what is encoded
+        let mut m3 = Module::parse(&bytes, true).expect("harness: base parses");
+        apply(&mut m3, &c.items);
+        let _ = m3.pull_side_effects();
+        let out3 = m3.encode();
+        (exp, recs, out, out3)
     });
-    let (exp, recs, out) = match r {
+    let (exp, recs, out, out3) = match r {
         Ok(x) => x,
         Err(p) => {
             if p.msg.starts_with("harness:") {
@@ -380,6 +386,13 @@ fn run_case(c: &Case) -> Outcome {
         }
     };
     o.observed = hash_of(&recs.iter().map(|r| (format!("{}", r.kind), r.tag.clone(), r.desc.clone(), r.body.clone())).collect::<Vec<_>>());
+    if out3 != out {
+        let has_fn_probe = c.items.iter().any(|i| matches!(i, Item::Probe { mode: PMode::FuncEntry | PMode::FuncExit, .. }));
+        o.fail(
+            format!("encode-after-report differs{}", if has_fn_probe { " (function entry/exit probe present)" } else { "" }),
+            format!("pull_side_effects() followed by encode() gives {} bytes, encode() alone {} bytes, and they differ: the report and the encoded module are not about the same module", out3.len(), out.len()),
+        );
+    }
     // index of $l1 in the encoded module (the probes call it)
     let view = match decode(&out) {
         Ok(v) => v,
@@ -502,7 +515,7 @@ pub fn check(tier: Tier) -> i32 {
         frontier = next;
     }
     run.rule = format!(
-        "all histories of length <= {} over 34 operations: tagged additions of every kind (type, function/global/memory import, export, built function, global, memory, passive and active data), tagged probes of every mode (before, after, alternate, semantic-after on a block and on a br, block-entry, block-exit, block-alt, function entry/exit) through the module iterator (append_to_tag) and the function modifier (append_tag_at), plus untagged additions and probes, a tagged request for a type the base already has and an untagged re-request of a tagged type, on a base that already has an item of every kind. Two replays per history: one calls pull_side_effects(), the other encode(). Oracle: for every tag exactly one record of the item's kind carries it (special-mode probes: at least one), with the item's content; a probe's / function's record body contains the item's code and refers to function $l1, memory $m0 and global $g0 by their indices in the ENCODED module; no non-empty tag appears that was never attached; no record describes a pre-existing item. Records with empty tags are tolerated.",
+        "all histories of length <= {} over 34 operations: tagged additions of every kind (type, function/global/memory import, export, built function, global, memory, passive and active data), tagged probes of every mode (before, after, alternate, semantic-after on a block and on a br, block-entry, block-exit, block-alt, function entry/exit) through the module iterator (append_to_tag) and the function modifier (append_tag_at), plus untagged additions and probes, a tagged request for a type the base already has and an untagged re-request of a tagged type, on a base that already has an item of every kind. Three replays per history: one calls pull_side_effects(), one encode(), one pull_side_effects() and then encode() (whose bytes must equal the second's). Oracle: for every tag exactly one record of the item's kind carries it (special-mode probes: at least one), with the item's content; a probe's / function's record body contains the item's code and refers to function $l1, memory $m0 and global $g0 by their indices in the ENCODED module; no non-empty tag appears that was never attached; no record describes a pre-existing item. Records with empty tags are tolerated.",
         depth
     );
     run.run_cases("tagged histories", &cases, run_case);
